@@ -25,7 +25,7 @@ import json,sys
 d,prop,needs,demo=sys.argv[1:5]
 json.dump({"breaks_property":prop,"needs_to_manifest":needs,
  "confirmed":"tools/install_seed5.sh in the author's scratch worktree: 78/78 existing tests pass with the change; demonstration fails with the change and passes without it",
- "demonstration":demo,"checks":[prop],"produced_by":"independent sub-agent given only the property text and a scratch worktree (round 5: told which ideas had been used before)"},
+ "demonstration":demo,"checks":[prop],"produced_by":"independent sub-agent given only the property text and a scratch worktree (rounds 5-8: told which ideas had been used before)"},
  open(d+"/meta.json","w"),indent=1)
 PY
 cd /; git -C /repo worktree remove --force $wt && rm -rf $wt
